@@ -27,6 +27,16 @@ func (ex *Exec) loopCtx(st *State, fr *Frame, l *Loop) *SpecCtx {
 			if ll == l {
 				c.binds["_i"] = tt
 			}
+			// _r: the slice being ranged over
+			if x := rangedValue(phi); x != nil {
+				if xv, ok := fr.env[x].(Term); ok {
+					rt := TT{T: xv, Ty: x.Type()}
+					c.binds[fmt.Sprintf("_r%d", ll.ordinal)] = rt
+					if ll == l {
+						c.binds["_r"] = rt
+					}
+				}
+			}
 		}
 	}
 	return c
@@ -219,6 +229,21 @@ func (ex *Exec) bodyEffects(fn *ssa.Function, l *Loop, fr *Frame, mods map[strin
 				ghosts["iter$"+in.Name()+"$"+shortName(in.Parent().String())] = true
 			case ssa.CallInstruction:
 				c := in.Common()
+				if con != nil {
+					name := calleeName(c)
+					if bi, ok := c.Value.(*ssa.Builtin); ok {
+						name = bi.Name()
+					}
+					for _, a := range con.Ats {
+						if a.Callee == name && a.Ghost != "" {
+							g := a.Ghost
+							if i := strings.Index(g, "["); i > 0 {
+								g = g[:i]
+							}
+							ghosts[g] = true
+						}
+					}
+				}
 				if _, ok := c.Value.(*ssa.Builtin); ok {
 					continue
 				}
@@ -295,4 +320,32 @@ func (ex *Exec) freeVarCell(fr *Frame, fn *ssa.Function, fv *ssa.FreeVar, cells 
 			}
 		}
 	}
+}
+
+// rangedValue finds the operand X of the `len(X)` that bounds a range loop's index.
+func rangedValue(phi *ssa.Phi) ssa.Value {
+	refs := phi.Referrers()
+	if refs == nil {
+		return nil
+	}
+	for _, r := range *refs {
+		bo, ok := r.(*ssa.BinOp)
+		if !ok {
+			continue
+		}
+		rr := bo.Referrers()
+		if rr == nil {
+			continue
+		}
+		for _, u := range *rr {
+			if cmp, ok := u.(*ssa.BinOp); ok && cmp.X == bo {
+				if call, ok := cmp.Y.(*ssa.Call); ok {
+					if b, ok := call.Call.Value.(*ssa.Builtin); ok && b.Name() == "len" && len(call.Call.Args) == 1 {
+						return call.Call.Args[0]
+					}
+				}
+			}
+		}
+	}
+	return nil
 }
